@@ -370,13 +370,14 @@ def replay(path: str) -> int:
 # ----------------------------------------------------------------------------------------------
 # the check
 # ----------------------------------------------------------------------------------------------
-def digests_cmd(pid: str, n: int, base_seed: int) -> int:
-    """Print the digests of the first n seeds of every quick profile (determinism self-test)."""
+def digests_cmd(pid: str, n: int, base_seed: int, reverse: bool = False) -> int:
+    """Print the digests of the first n seeds of every quick profile (determinism self-test).  With reverse=True the
+    seeds are executed in the opposite order (a digest that depends on what ran before in the process shows up)."""
     prop = load_prop(pid)
     known = load_known(pid)
     out = []
     for profile, _count in prop.tiers["quick"]:
-        for i in range(n):
+        for i in (range(n - 1, -1, -1) if reverse else range(n)):
             seed = derive_seed(base_seed, pid, profile, i)
             if hasattr(prop, "expand"):
                 ds = []
@@ -385,6 +386,7 @@ def digests_cmd(pid: str, n: int, base_seed: int) -> int:
                 out.append((profile, i, [d["digest"][:16] for d in ds]))
             else:
                 out.append((profile, i, [execute(prop, profile, Source(seed), known=known)["digest"][:16]]))
+    out.sort(key=lambda r: (r[0], r[1]))
     print(json.dumps(out))
     return 0
 
